@@ -222,7 +222,7 @@ func c14RunE2E(prop string, cfg c14RunCfg) *c14Result {
 	var pending []c14Action
 	for _, a := range cfg.Actions {
 		switch a.Kind {
-		case "hold", "drain", "restart", "add":
+		case "hold", "drain", "restart", "add", "add-rare":
 			pending = append(pending, a)
 		}
 	}
@@ -235,14 +235,49 @@ func c14RunE2E(prop string, cfg c14RunCfg) *c14Result {
 		case "hold", "drain":
 			w.operatorAction(a.Kind, held)
 		case "add":
-			w.addContainers(cfg.LateAdd)
+			if a.N > 0 {
+				w.addContainers(a.N)
+			} else {
+				w.addContainers(cfg.LateAdd)
+			}
+		case "add-rare":
+			for _, t := range cfg.RareLate {
+				c := w.rareContainer(t)
+				w.tq.Notify(c)
+				w.log.add(c14Event{Kind: "api-add", UUID: c.UUID, Info: fmt.Sprintf("type%d", t)})
+			}
+			w.count("containers_added_late", len(cfg.RareLate))
+			// the fault phase lasts until the cloud has been asked at
+			// least once for each of these types (bounded by polls)
+			// (lock order is g.mu before w.mu, so g is inspected without w.mu)
+			w.mu.Lock()
+			lim := w.polls + cfg.pollsFor(4000)
+			w.mu.Unlock()
+			for time.Now().Before(watchdog) {
+				all := true
+				g := w.curGen()
+				g.mu.Lock()
+				for _, t := range cfg.RareLate {
+					if g.createSeen[fmt.Sprintf("type%d", t)] == 0 {
+						all = false
+					}
+				}
+				g.mu.Unlock()
+				w.mu.Lock()
+				if all || w.polls >= lim {
+					w.mu.Unlock()
+					break
+				}
+				w.cond.Wait() // woken by every poll and by the 20 ms ticker
+				w.mu.Unlock()
+			}
 		case "restart":
 			old := w.curGen()
 			// adversarial placement: prefer the moment when a crunch-run
 			// has been delivered to a slow-start VM but not answered yet
 			// (bounded by progress, not by time)
 			w.mu.Lock()
-			limS, limP := w.nStarts+15, w.polls+400
+			limS, limP := w.nStarts+15, w.polls+cfg.pollsFor(2000)
 			for w.slowInFlight == 0 && w.nStarts < limS && w.polls < limP && time.Now().Before(watchdog) {
 				w.cond.Wait()
 			}
@@ -407,6 +442,30 @@ func c14RunE2E(prop string, cfg c14RunCfg) *c14Result {
 			if proc != "live" && (s.c.State == arvados.ContainerStateRunning || s.c.State == arvados.ContainerStateLocked) {
 				sig = fmt.Sprintf("C15:L2:container-with-dead-process-stuck:state=%s", s.c.State)
 			}
+			w.mu.Lock()
+			started := false
+			for _, st := range w.starts {
+				if st.uuid == s.c.UUID {
+					started = true
+				}
+			}
+			w.mu.Unlock()
+			if !started && proc == "none" && s.c.State != arvados.ContainerStateRunning {
+				// never got a crunch-run: how many instances of its type exist?
+				n := 0
+				if it, err := ChooseInstanceType(w.cluster, &s.c); err == nil {
+					for _, svm := range w.sis.C14VMs() {
+						if svm.C14ProviderType() == it.ProviderType {
+							n++
+						}
+					}
+				}
+				inst := "no-instance-of-its-type"
+				if n > 0 {
+					inst = "instances-of-its-type-exist"
+				}
+				sig = fmt.Sprintf("C15:L1:container-never-started:state=%s:%s", s.c.State, inst)
+			}
 			if s.c.Priority == 0 {
 				sig += ":priority=0"
 			}
@@ -558,7 +617,10 @@ func c14RunE2E(prop string, cfg c14RunCfg) *c14Result {
 			continue
 		}
 		for _, win := range vm.windows {
-			if win.gen != e.gen || sc.tc <= win.from || (win.to != 0 && sc.tc >= win.to) {
+			// the whole call must lie inside the window: a call that began
+			// before the operator's "run" request may well have been served
+			// (pool lock) after it
+			if win.gen != e.gen || sc.tc <= win.from || (win.to != 0 && sc.tr >= win.to) {
 				continue
 			}
 			detail := fmt.Sprintf("StartContainer(%s) was called at %.3fms and sent the container to %s (fault kind %s), although %s at %.3fms (same dispatcher generation %d)\nevent history of the instance:\n%s",
@@ -649,9 +711,15 @@ func c14Entry(t *testing.T, prop string) {
 	if prop == "C15" {
 		defer c15Witness(t, run)
 	}
-	n := run.N(18, 72)
-	run.Cases("e2e-"+prop, n, func(i int, rng *verifkit.Rand) {
-		cfg := c14GenCfg(rng, run.Thorough())
+	if prop == "C14" {
+		defer c14Stream(t, run, prop, "e2e-C14-slowssh", run.N(6, 24), func(rng *verifkit.Rand) c14RunCfg { return c14SlowSSHCfg(rng) })
+	}
+	c14Stream(t, run, prop, "e2e-"+prop, run.N(18, 72), func(rng *verifkit.Rand) c14RunCfg { return c14GenCfg(rng, run.Thorough()) })
+}
+
+func c14Stream(t *testing.T, run *verifkit.Run, prop, stream string, n int, gen func(rng *verifkit.Rand) c14RunCfg) {
+	run.Cases(stream, n, func(i int, rng *verifkit.Rand) {
+		cfg := gen(rng)
 		run.Input(cfg, true)
 		res := c14RunE2E(prop, cfg)
 		run.Eval(res.evals[prop])
@@ -683,7 +751,7 @@ func c14Entry(t *testing.T, prop string) {
 		if i < 2 {
 			run.Sample(cfg)
 		}
-		t.Logf("%s run %d: containers=%d starts=%d events=%d findings=%d inconclusive=%v feature=%s", prop, i, cfg.Containers, res.starts, res.events, len(res.findings), res.inconcl, res.feature)
+		t.Logf("%s %s run %d: containers=%d starts=%d events=%d findings=%d inconclusive=%v feature=%s", prop, stream, i, cfg.Containers, res.starts, res.events, len(res.findings), res.inconcl, res.feature)
 	})
 }
 
